@@ -206,6 +206,7 @@ def run(ctx: Ctx) -> None:
     from ..rules import memo
     memo.rule_memo_sound(ctx, [HEIGHT, TRS])
     memo.rule_falsy_zero(ctx, [HEIGHT, TRS])
+    memo.rule_arg_names(ctx, [HEIGHT, TRS])
     hd = repo.anchor(HEIGHT, "height_dict")
     for n in ast.walk(hd):
         if isinstance(n, ast.Assign) and isinstance(n.value, ast.Call) and call_attr(n.value) == "sort":
